@@ -1,6 +1,7 @@
 import Rtcm.Model.Decodable
 import Rtcm.Lemmas.Frame
 import Rtcm.Lemmas.Msm
+import Rtcm.Lemmas.Layout
 /-
   Soundness of the static check `ckDef`: a definition it accepts can only fail to decode because
   the payload is too short.
@@ -107,5 +108,1281 @@ theorem typed_set (T : Tables) (a : Attrs) (k : AttrKey) (v : Val) (h : Typed T 
 theorem getInt_of_int (s : DState) (k : AttrKey) (i : Int) (h : s.attrs.get? k = some (.int i)) :
     getInt s k = .ok i := by
   simp [getInt, h, Val.asInt?]
+
+
+/-! ### the invariant -/
+
+theorem has_cons (sc : Scope) (a b fid dp : Nat) :
+    Scope.has ((a, b) :: sc) fid dp = ((a == fid && b == dp) || sc.has fid dp) := by
+  simp [Scope.has]
+
+structure Inv (T : Tables) (env : CEnv) (d : Nat) (idx : List Nat) (s : DState) : Prop where
+  len : idx.length = d
+  typed : Typed T s.attrs
+  scope : ∀ fid dp, env.scope.has fid dp = true → dp ≤ d ∧ (s.attrs.get? (fid, idx.take dp)).isSome = true
+  maps : env.maps = true → ∃ sm cm, s.satmap = some sm ∧ s.cellmap = some cm
+      ∧ s.attrs.get? (T.fidNSat, []) = some (.int sm.length) ∧ s.attrs.get? (T.fidNCell, []) = some (.int cm.length)
+  bound : ∀ i rest, idx = i :: rest → 1 ≤ i
+      ∧ (env.maps = true → env.outer = some T.fidNSat → ∃ sm, s.satmap = some sm ∧ i ≤ sm.length)
+      ∧ (env.maps = true → env.outer = some T.fidNCell → ∃ cm, s.cellmap = some cm ∧ i ≤ cm.length)
+  m394 : env.scope.has T.fidNSat 0 = true → ∀ a, T.special.df394 = some a →
+      ∃ m : Nat, m < 2 ^ 64 ∧ s.attrs.get? (a, []) = some (.int m)
+        ∧ s.attrs.get? (T.fidNSat, []) = some (.int (popcount m 64))
+  m395 : env.scope.has T.fidNSig 0 = true → ∀ a, T.special.df395 = some a →
+      ∃ m : Nat, m < 2 ^ 32 ∧ s.attrs.get? (a, []) = some (.int m)
+        ∧ s.attrs.get? (T.fidNSig, []) = some (.int (popcount m 32))
+
+def M394 (T : Tables) (env : CEnv) (s : DState) : Prop :=
+  env.scope.has T.fidNSat 0 = true → ∀ a, T.special.df394 = some a →
+      ∃ m : Nat, m < 2 ^ 64 ∧ s.attrs.get? (a, []) = some (.int m)
+        ∧ s.attrs.get? (T.fidNSat, []) = some (.int (popcount m 64))
+
+def M395 (T : Tables) (env : CEnv) (s : DState) : Prop :=
+  env.scope.has T.fidNSig 0 = true → ∀ a, T.special.df395 = some a →
+      ∃ m : Nat, m < 2 ^ 32 ∧ s.attrs.get? (a, []) = some (.int m)
+        ∧ s.attrs.get? (T.fidNSig, []) = some (.int (popcount m 32))
+
+/-- storing a well-typed value under the key of a field occurrence and recording it in scope keeps
+    the invariant, provided the mask bookkeeping facts are supplied for the new state -/
+theorem inv_set_core (T : Tables) (env : CEnv) (d : Nat) (idx : List Nat) (s s' : DState)
+    (fid dp : Nat) (v : Val) (hinv : Inv T env d idx s)
+    (hlt : fid < T.nf) (hdp : dp ≤ d)
+    (h1 : ∀ f, T.field? fid = some f → isCounterTy f = true → ∃ n : Nat, v = .int n)
+    (h2 : ∀ f, T.field? fid = some f → f.ty = .str → ∃ t, v = .text t)
+    (ha : s'.attrs = s.attrs.set (fid, idx.take dp) v) (hsm : s'.satmap = s.satmap) (hcm : s'.cellmap = s.cellmap)
+    (hm394 : M394 T (env.add fid dp) s') (hm395 : M395 T (env.add fid dp) s') :
+    Inv T (env.add fid dp) d idx s' := by
+  have hne : ∀ x, T.nf ≤ x → ∀ l, ((fid, idx.take dp) : AttrKey) ≠ (x, l) := by
+    intro x hx l he; injection he with he _; omega
+  have keep : ∀ x, T.nf ≤ x → ∀ l, s'.attrs.get? (x, l) = s.attrs.get? (x, l) := by
+    intro x hx l; rw [ha, Attrs.get?_set_ne _ _ _ _ (hne x hx l)]
+  refine ⟨hinv.len, ?_, ?_, ?_, ?_, hm394, hm395⟩
+  · rw [ha]; exact typed_set T _ _ _ hinv.typed h1 h2 (fun h => by simp at h; omega)
+  · intro f dp' hh
+    simp only [CEnv.add, has_cons, Bool.or_eq_true, Bool.and_eq_true, beq_iff_eq] at hh
+    rcases hh with ⟨rfl, rfl⟩ | hh
+    · exact ⟨hdp, by rw [ha, Attrs.get?_set_eq]; rfl⟩
+    · obtain ⟨h1', h2'⟩ := hinv.scope f dp' hh
+      exact ⟨h1', by rw [ha]; exact Attrs.isSome_set _ _ _ _ h2'⟩
+  · intro hm
+    obtain ⟨sm, cm, e1, e2, e3, e4⟩ := hinv.maps hm
+    exact ⟨sm, cm, by rw [hsm, e1], by rw [hcm, e2],
+      by rw [keep _ (by simp [Tables.fidNSat])]; exact e3, by rw [keep _ (by simp [Tables.fidNCell])]; exact e4⟩
+  · intro i rest hi
+    obtain ⟨b1, b2, b3⟩ := hinv.bound i rest hi
+    exact ⟨b1, fun hm ho => by rw [hsm]; exact b2 hm ho, fun hm ho => by rw [hcm]; exact b3 hm ho⟩
+
+/-- … for an ordinary field (not DF394 / DF395) the mask facts carry over -/
+theorem inv_set (T : Tables) (hy : Hyg T) (env : CEnv) (d : Nat) (idx : List Nat) (s s' : DState)
+    (fid dp : Nat) (v : Val) (hinv : Inv T env d idx s)
+    (hlt : fid < T.nf) (hdp : dp ≤ d)
+    (h394 : T.special.df394 ≠ some fid) (h395 : T.special.df395 ≠ some fid)
+    (h1 : ∀ f, T.field? fid = some f → isCounterTy f = true → ∃ n : Nat, v = .int n)
+    (h2 : ∀ f, T.field? fid = some f → f.ty = .str → ∃ t, v = .text t)
+    (ha : s'.attrs = s.attrs.set (fid, idx.take dp) v) (hsm : s'.satmap = s.satmap) (hcm : s'.cellmap = s.cellmap) :
+    Inv T (env.add fid dp) d idx s' := by
+  have hne : ∀ x, T.nf ≤ x → ∀ l, ((fid, idx.take dp) : AttrKey) ≠ (x, l) := by
+    intro x hx l he; injection he with he _; omega
+  have keep : ∀ x, T.nf ≤ x → ∀ l, s'.attrs.get? (x, l) = s.attrs.get? (x, l) := by
+    intro x hx l; rw [ha, Attrs.get?_set_ne _ _ _ _ (hne x hx l)]
+  refine inv_set_core T env d idx s s' fid dp v hinv hlt hdp h1 h2 ha hsm hcm ?_ ?_
+  · intro hh a hs
+    have hfa : fid ≠ a := fun e => h394 (by rw [hs, e])
+    simp only [CEnv.add, has_cons, Bool.or_eq_true, Bool.and_eq_true, beq_iff_eq] at hh
+    have hh' : env.scope.has T.fidNSat 0 = true := by
+      rcases hh with ⟨e, _⟩ | hh
+      · simp [Tables.fidNSat] at e; omega
+      · exact hh
+    obtain ⟨m, hm, g1, g2⟩ := hinv.m394 hh' a hs
+    refine ⟨m, hm, ?_, by rw [keep _ (by simp [Tables.fidNSat])]; exact g2⟩
+    rw [ha, Attrs.get?_set_ne _ _ _ _ (by intro e; injection e with e _; exact hfa e)]
+    exact g1
+  · intro hh a hs
+    have hfa : fid ≠ a := fun e => h395 (by rw [hs, e])
+    simp only [CEnv.add, has_cons, Bool.or_eq_true, Bool.and_eq_true, beq_iff_eq] at hh
+    have hh' : env.scope.has T.fidNSig 0 = true := by
+      rcases hh with ⟨e, _⟩ | hh
+      · simp [Tables.fidNSig] at e; omega
+      · exact hh
+    obtain ⟨m, hm, g1, g2⟩ := hinv.m395 hh' a hs
+    refine ⟨m, hm, ?_, by rw [keep _ (by simp [Tables.fidNSig])]; exact g2⟩
+    rw [ha, Attrs.get?_set_ne _ _ _ _ (by intro e; injection e with e _; exact hfa e)]
+    exact g1
+
+theorem inv_weaken (T : Tables) (e1 e2 : CEnv) (d : Nat) (idx : List Nat) (s : DState) (h : Inv T e1 d idx s)
+    (hs : ∀ f dp, e2.scope.has f dp = true → e1.scope.has f dp = true)
+    (hm : e2.maps = true → e1.maps = true) (ho : e2.outer = e1.outer) : Inv T e2 d idx s :=
+  ⟨h.len, h.typed, fun f dp hh => h.scope f dp (hs f dp hh), fun hm2 => h.maps (hm hm2),
+   fun i rest hi => ⟨(h.bound i rest hi).1, fun a b => (h.bound i rest hi).2.1 (hm a) (ho ▸ b),
+     fun a b => (h.bound i rest hi).2.2 (hm a) (ho ▸ b)⟩,
+   fun hh => h.m394 (hs _ _ hh), fun hh => h.m395 (hs _ _ hh)⟩
+
+/-- setting one of the harmonic-coefficient counters -/
+theorem inv_set_derived (T : Tables) (hy : Hyg T) (env : CEnv) (d : Nat) (idx : List Nat) (s s' : DState)
+    (x : Nat) (i : Int) (hinv : Inv T env d idx s) (hx : x = T.fidNHarmC ∨ x = T.fidNHarmS)
+    (ha : s'.attrs = s.attrs.set (x, []) (.int i)) (hsm : s'.satmap = s.satmap) (hcm : s'.cellmap = s.cellmap) :
+    Inv T (env.add x 0) d idx s' := by
+  have hxn : T.nf + 3 ≤ x := by rcases hx with h | h <;> simp [h, Tables.fidNHarmC, Tables.fidNHarmS]
+  have keep : ∀ k : AttrKey, k.1 ≠ x → s'.attrs.get? k = s.attrs.get? k := by
+    intro k hk; rw [ha, Attrs.get?_set_ne _ _ _ _ (by intro e; apply hk; rw [← e])]
+  have nofield : ∀ f, T.field? x ≠ some f := fun f hf => by have := hy.below x f hf; omega
+  refine ⟨hinv.len, ?_, ?_, ?_, ?_, ?_, ?_⟩
+  · rw [ha]
+    exact typed_set T _ _ _ hinv.typed (fun f hf => absurd hf (nofield f)) (fun f hf => absurd hf (nofield f))
+      (fun _ => ⟨i, rfl⟩)
+  · intro f dp' hh
+    simp only [CEnv.add, has_cons, Bool.or_eq_true, Bool.and_eq_true, beq_iff_eq] at hh
+    rcases hh with ⟨rfl, rfl⟩ | hh
+    · exact ⟨Nat.zero_le _, by rw [ha]; simp [Attrs.get?_set_eq]⟩
+    · obtain ⟨h1', h2'⟩ := hinv.scope f dp' hh
+      exact ⟨h1', by rw [ha]; exact Attrs.isSome_set _ _ _ _ h2'⟩
+  · intro hm
+    obtain ⟨sm, cm, e1, e2, e3, e4⟩ := hinv.maps hm
+    exact ⟨sm, cm, by rw [hsm, e1], by rw [hcm, e2],
+      by rw [keep _ (by simp [Tables.fidNSat]; omega)]; exact e3,
+      by rw [keep _ (by simp [Tables.fidNCell]; omega)]; exact e4⟩
+  · intro i' rest hi
+    obtain ⟨b1, b2, b3⟩ := hinv.bound i' rest hi
+    exact ⟨b1, fun hm ho => by rw [hsm]; exact b2 hm ho, fun hm ho => by rw [hcm]; exact b3 hm ho⟩
+  · intro hh a hs
+    obtain ⟨a', ha', hlt⟩ := hy.s394
+    rw [hs] at ha'; injection ha' with ha'; subst ha'
+    simp only [CEnv.add, has_cons, Bool.or_eq_true, Bool.and_eq_true, beq_iff_eq] at hh
+    have hh' : env.scope.has T.fidNSat 0 = true := by
+      rcases hh with ⟨e, _⟩ | hh
+      · simp [Tables.fidNSat] at e; omega
+      · exact hh
+    obtain ⟨m, hm, g1, g2⟩ := hinv.m394 hh' a hs
+    exact ⟨m, hm, by rw [keep _ (by simp; omega)]; exact g1, by rw [keep _ (by simp [Tables.fidNSat]; omega)]; exact g2⟩
+  · intro hh a hs
+    obtain ⟨a', ha', hlt⟩ := hy.s395
+    rw [hs] at ha'; injection ha' with ha'; subst ha'
+    simp only [CEnv.add, has_cons, Bool.or_eq_true, Bool.and_eq_true, beq_iff_eq] at hh
+    have hh' : env.scope.has T.fidNSig 0 = true := by
+      rcases hh with ⟨e, _⟩ | hh
+      · simp [Tables.fidNSig] at e; omega
+      · exact hh
+    obtain ⟨m, hm, g1, g2⟩ := hinv.m395 hh' a hs
+    exact ⟨m, hm, by rw [keep _ (by simp; omega)]; exact g1, by rw [keep _ (by simp [Tables.fidNSig]; omega)]; exact g2⟩
+
+
+/-! ### one field -/
+
+theorem extract_lt (p : Payload) (off w b : Nat) (h : extract p off w = some b) : b < 2 ^ w := by
+  unfold extract at h
+  split at h
+  · injection h with h; rw [← h]; exact Nat.mod_lt _ (Nat.two_pow_pos w)
+  · simp at h
+
+/-- what `fieldStore` does on a typed store -/
+def StoreOK (f : FieldSpec) (fid : Nat) (idx : List Nat) (a : Attrs) (w bits : Nat) (a' : Attrs) : Prop :=
+  (f.ty ≠ .str ∧ a' = a.set (fid, idx) (interp f w bits)) ∨ (f.ty = .str ∧ ∃ t, a' = a.set (fid, []) (.text t))
+
+theorem fieldStore_ok (T : Tables) (f : FieldSpec) (fid : Nat) (idx : List Nat) (a : Attrs) (w bits : Nat)
+    (hf : T.field? fid = some f) (ht : Typed T a) :
+    ∃ a', fieldStore f fid idx a (interp f w bits) = .ok a' ∧ StoreOK f fid idx a w bits a' := by
+  unfold fieldStore
+  by_cases hs : f.ty = .str
+  · rw [if_pos hs]
+    have hv : interp f w bits = .text (if bits = 0 then [] else [bits]) := interp_str f w bits hs
+    rw [hv]
+    cases hg : a.get? (fid, []) with
+    | none => exact ⟨_, rfl, Or.inr ⟨hs, _, rfl⟩⟩
+    | some old =>
+      obtain ⟨t, ht'⟩ := (ht (fid, []) old hg).2.1 f hf hs
+      subst ht'
+      exact ⟨_, rfl, Or.inr ⟨hs, _, rfl⟩⟩
+  · rw [if_neg hs]
+    exact ⟨_, rfl, Or.inl ⟨hs, rfl⟩⟩
+
+/-- a bit-carrying field: either the payload is too short, or the field's bits are stored and the
+    special-field bookkeeping runs on the updated state -/
+theorem decField_pre (c : Ctx) (fid : Nat) (idx : List Nat) (s : DState) (f : FieldSpec) (w : Nat)
+    (hf : c.T.field? fid = some f) (hl : isLabelTy f.ty = false) (hw : fieldWidth c.T f fid s = .ok w)
+    (h0 : ¬ ((f.ty = .int ∨ f.ty = .snt) ∧ w = 0)) (ht : Typed c.T s.attrs) :
+    decField c fid idx s = .error .short
+    ∨ ∃ bits a', bits < 2 ^ w ∧ StoreOK f fid idx s.attrs w bits a'
+        ∧ decField c fid idx s
+            = fieldSpecial c.T c.id c.label f fid idx w bits { s with off := s.off + w, attrs := a' } := by
+  unfold decField
+  simp only [hf, hw]
+  rw [fieldValue_bits c.p f w idx s hl, if_neg h0]
+  cases he : extract c.p s.off w with
+  | none => left; rfl
+  | some bits =>
+    right
+    obtain ⟨a', h1, h2⟩ := fieldStore_ok c.T f fid idx s.attrs w bits hf ht
+    refine ⟨bits, a', extract_lt _ _ _ _ he, h2, ?_⟩
+    simp only [h1]
+
+theorem not_special (T : Tables) (fid : Nat) (h : isSpecial T fid = false) :
+    some fid ≠ T.special.df394 ∧ some fid ≠ T.special.df395 ∧ some fid ≠ T.special.df396 ∧ some fid ≠ T.special.idf038 := by
+  simp only [isSpecial, Bool.or_eq_false_iff, beq_eq_false_iff_ne, ne_eq] at h
+  exact ⟨h.1.1.1, h.1.1.2, h.1.2, h.2⟩
+
+theorem fieldSpecial_plain (T : Tables) (id : Ident) (label : Nat) (f : FieldSpec) (fid : Nat) (idx : List Nat)
+    (w bits : Nat) (s1 : DState) (h : isSpecial T fid = false) :
+    fieldSpecial T id label f fid idx w bits s1 = .ok s1 := by
+  obtain ⟨h1, h2, h3, h4⟩ := not_special T fid h
+  simp [fieldSpecial, msmSpecial, harmSpecial, h1, h2, h3, h4]
+
+theorem interp_counter (f : FieldSpec) (w bits : Nat) (h : isCounterTy f = true) : interp f w bits = .int bits := by
+  simp only [isCounterTy, Bool.and_eq_true, Bool.or_eq_true, beq_iff_eq] at h
+  exact interp_unsigned f w bits (by rcases h.1 with (h | h) | h <;> simp [h]) h.2
+
+theorem isCounter_not_str (f : FieldSpec) (h : isCounterTy f = true) : f.ty ≠ .str := by
+  simp only [isCounterTy, Bool.and_eq_true, Bool.or_eq_true, beq_iff_eq] at h
+  rcases h.1 with (h | h) | h <;> simp [h]
+
+
+/-! ### the scope / typing part of the invariant on its own (for the mask fields, whose
+    bookkeeping takes two stores) -/
+
+structure Base (T : Tables) (sc : Scope) (d : Nat) (idx : List Nat) (s : DState) : Prop where
+  len : idx.length = d
+  typed : Typed T s.attrs
+  scope : ∀ fid dp, sc.has fid dp = true → dp ≤ d ∧ (s.attrs.get? (fid, idx.take dp)).isSome = true
+
+theorem Inv.base {T : Tables} {env : CEnv} {d : Nat} {idx : List Nat} {s : DState} (h : Inv T env d idx s) :
+    Base T env.scope d idx s := ⟨h.len, h.typed, h.scope⟩
+
+theorem base_set_field (T : Tables) (sc : Scope) (d : Nat) (idx : List Nat) (s s' : DState)
+    (fid dp : Nat) (v : Val) (hb : Base T sc d idx s) (hlt : fid < T.nf) (hdp : dp ≤ d)
+    (h1 : ∀ f, T.field? fid = some f → isCounterTy f = true → ∃ n : Nat, v = .int n)
+    (h2 : ∀ f, T.field? fid = some f → f.ty = .str → ∃ t, v = .text t)
+    (ha : s'.attrs = s.attrs.set (fid, idx.take dp) v) : Base T ((fid, dp) :: sc) d idx s' := by
+  refine ⟨hb.len, ?_, ?_⟩
+  · rw [ha]; exact typed_set T _ _ _ hb.typed h1 h2 (fun h => by simp at h; omega)
+  · intro f dp' hh
+    simp only [has_cons, Bool.or_eq_true, Bool.and_eq_true, beq_iff_eq] at hh
+    rcases hh with ⟨rfl, rfl⟩ | hh
+    · exact ⟨hdp, by rw [ha, Attrs.get?_set_eq]; rfl⟩
+    · obtain ⟨h1', h2'⟩ := hb.scope f dp' hh
+      exact ⟨h1', by rw [ha]; exact Attrs.isSome_set _ _ _ _ h2'⟩
+
+theorem base_set_derived (T : Tables) (hy : Hyg T) (sc : Scope) (d : Nat) (idx : List Nat) (s s' : DState)
+    (x : Nat) (i : Int) (hb : Base T sc d idx s) (hx : T.nf ≤ x)
+    (ha : s'.attrs = s.attrs.set (x, []) (.int i)) : Base T ((x, 0) :: sc) d idx s' := by
+  have nofield : ∀ f, T.field? x ≠ some f := fun f hf => by have := hy.below x f hf; omega
+  refine ⟨hb.len, ?_, ?_⟩
+  · rw [ha]
+    exact typed_set T _ _ _ hb.typed (fun f hf => absurd hf (nofield f)) (fun f hf => absurd hf (nofield f))
+      (fun _ => ⟨i, rfl⟩)
+  · intro f dp' hh
+    simp only [has_cons, Bool.or_eq_true, Bool.and_eq_true, beq_iff_eq] at hh
+    rcases hh with ⟨rfl, rfl⟩ | hh
+    · exact ⟨Nat.zero_le _, by rw [ha]; simp [Attrs.get?_set_eq]⟩
+    · obtain ⟨h1', h2'⟩ := hb.scope f dp' hh
+      exact ⟨h1', by rw [ha]; exact Attrs.isSome_set _ _ _ _ h2'⟩
+
+/-- the conclusion we prove about every piece of the walk -/
+def Sound (T : Tables) (env' : CEnv) (d : Nat) (idx : List Nat) (s : DState) (r : Except DecErr DState) : Prop :=
+  (∀ e, r = .error e → e = .short)
+  ∧ (∀ s', r = .ok s' → Inv T env' d idx s' ∧ (1 ≤ d → s'.satmap = s.satmap ∧ s'.cellmap = s.cellmap))
+
+theorem sound_short (T : Tables) (env' : CEnv) (d : Nat) (idx : List Nat) (s : DState) :
+    Sound T env' d idx s (.error .short) :=
+  ⟨fun e h => by injection h with h; exact h.symm, fun s' h => by simp at h⟩
+
+theorem sound_ok (T : Tables) (env' : CEnv) (d : Nat) (idx : List Nat) (s s' : DState)
+    (h : Inv T env' d idx s') (hm : 1 ≤ d → s'.satmap = s.satmap ∧ s'.cellmap = s.cellmap) :
+    Sound T env' d idx s (.ok s') :=
+  ⟨fun e he => by simp at he, fun s'' he => by injection he with he; subst he; exact ⟨h, hm⟩⟩
+
+theorem fieldWidth_plain (T : Tables) (f : FieldSpec) (fid : Nat) (s : DState) (h : some fid ≠ T.special.df396) :
+    fieldWidth T f fid s = .ok f.width := by
+  simp [fieldWidth, h]
+
+/-- an ordinary bit-carrying field -/
+theorem sound_plain (c : Ctx) (hy : Hyg c.T) (env : CEnv) (d fid : Nat) (idx : List Nat) (s : DState) (f : FieldSpec)
+    (hf : c.T.field? fid = some f) (hl : isLabelTy f.ty = false) (hsp : isSpecial c.T fid = false)
+    (h0 : ¬ ((f.ty = .int ∨ f.ty = .snt) ∧ f.width = 0)) (hinv : Inv c.T env d idx s) :
+    Sound c.T (env.add fid (if f.ty = .str then 0 else d)) d idx s (decField c fid idx s) := by
+  obtain ⟨n1, n2, n3, n4⟩ := not_special c.T fid hsp
+  have hw := fieldWidth_plain c.T f fid s n3
+  rcases decField_pre c fid idx s f f.width hf hl hw h0 hinv.typed with h | ⟨bits, a', hb, hst, h⟩
+  · rw [h]; exact sound_short _ _ _ _ _
+  · rw [h, fieldSpecial_plain c.T c.id c.label f fid idx f.width bits _ hsp]
+    apply sound_ok
+    · have hlt := hy.below fid f hf
+      rcases hst with ⟨hns, ha'⟩ | ⟨hs, t, ha'⟩
+      · rw [if_neg hns]
+        apply inv_set c.T hy env d idx s _ fid d (interp f f.width bits) hinv hlt (Nat.le_refl _)
+          (fun e => n1 e.symm) (fun e => n2 e.symm)
+        · intro f' hf' hc; rw [hf] at hf'; injection hf' with hf'; subst hf'
+          exact ⟨bits, interp_counter f _ _ hc⟩
+        · intro f' hf' hc; rw [hf] at hf'; injection hf' with hf'; subst hf'
+          exact absurd hc hns
+        · simp only; rw [ha', ← hinv.len, List.take_length]
+        · rfl
+        · rfl
+      · rw [if_pos hs]
+        apply inv_set c.T hy env d idx s _ fid 0 (.text t) hinv hlt (Nat.zero_le _)
+          (fun e => n1 e.symm) (fun e => n2 e.symm)
+        · intro f' hf' hc; rw [hf] at hf'; injection hf' with hf'; subst hf'
+          exact absurd hs (isCounter_not_str f hc)
+        · intro _ _ _; exact ⟨t, rfl⟩
+        · simp only; rw [ha']; simp
+        · rfl
+        · rfl
+    · intro _; exact ⟨rfl, rfl⟩
+
+
+theorem label_not_counter (f : FieldSpec) (h : isLabelTy f.ty = true) : isCounterTy f = false := by
+  cases hty : f.ty <;> simp [hty, isLabelTy] at h <;> simp [isCounterTy, hty]
+
+theorem label_not_str (f : FieldSpec) (h : isLabelTy f.ty = true) : f.ty ≠ .str := by
+  cases hty : f.ty <;> simp [hty, isLabelTy] at h <;> simp
+
+/-- a derived label inside a group driven by NSat (PRN) or NCell (CELLPRN / CELLSIG) -/
+theorem sound_label (c : Ctx) (hy : Hyg c.T) (env : CEnv) (d fid : Nat) (idx : List Nat) (s : DState) (f : FieldSpec)
+    (hf : c.T.field? fid = some f) (hl : isLabelTy f.ty = true) (hsp : isSpecial c.T fid = false)
+    (hw0 : f.width = 0) (hd : 1 ≤ d) (hm : env.maps = true)
+    (ho : (f.ty = .prn → env.outer = some c.T.fidNSat) ∧ (f.ty ≠ .prn → env.outer = some c.T.fidNCell))
+    (hinv : Inv c.T env d idx s) :
+    Sound c.T (env.add fid d) d idx s (decField c fid idx s) := by
+  obtain ⟨n1, n2, n3, n4⟩ := not_special c.T fid hsp
+  have hw := fieldWidth_plain c.T f fid s n3
+  obtain ⟨sm, cm, hsm, hcm, _, _⟩ := hinv.maps hm
+  have hidx : ∃ i rest, idx = i :: rest := by
+    cases idx with
+    | nil => have := hinv.len; simp at this; omega
+    | cons i rest => exact ⟨i, rest, rfl⟩
+  obtain ⟨i, rest, hi⟩ := hidx
+  obtain ⟨hi1, hbs, hbc⟩ := hinv.bound i rest hi
+  have hi0 : ¬ i = 0 := by omega
+  -- the label value
+  have hval : ∃ l, fieldValue c.p f f.width idx s = .ok (.text l, 0) := by
+    unfold fieldValue
+    cases hty : f.ty <;> simp [hty, isLabelTy] at hl
+    · obtain ⟨sm', e1, e2⟩ := hbs hm (ho.1 hty)
+      rw [hsm] at e1; injection e1 with e1; subst e1
+      have hlt : i - 1 < sm.length := by omega
+      refine ⟨sm[i - 1], ?_⟩
+      simp [hsm, hi, hi0, List.getElem?_eq_getElem hlt]
+    · obtain ⟨cm', e1, e2⟩ := hbc hm (ho.2 (by rw [hty]; simp))
+      rw [hcm] at e1; injection e1 with e1; subst e1
+      have hlt : i - 1 < cm.length := by omega
+      refine ⟨(cm[i - 1]).1, ?_⟩
+      simp [hcm, hi, hi0, List.getElem?_eq_getElem hlt]
+    · obtain ⟨cm', e1, e2⟩ := hbc hm (ho.2 (by rw [hty]; simp))
+      rw [hcm] at e1; injection e1 with e1; subst e1
+      have hlt : i - 1 < cm.length := by omega
+      refine ⟨(cm[i - 1]).2, ?_⟩
+      simp [hcm, hi, hi0, List.getElem?_eq_getElem hlt]
+  obtain ⟨l, hv⟩ := hval
+  have hns := label_not_str f hl
+  have hdec : decField c fid idx s = .ok { s with off := s.off + f.width, attrs := s.attrs.set (fid, idx) (.text l) } := by
+    unfold decField
+    simp only [hf, hw, hv, fieldStore, if_neg hns]
+    exact fieldSpecial_plain c.T c.id c.label f fid idx f.width 0 _ hsp
+  rw [hdec]
+  apply sound_ok
+  · apply inv_set c.T hy env d idx s _ fid d (.text l) hinv (hy.below fid f hf) (Nat.le_refl _)
+      (fun e => n1 e.symm) (fun e => n2 e.symm)
+    · intro f' hf' hc; rw [hf] at hf'; injection hf' with hf'; subst hf'
+      rw [label_not_counter f hl] at hc; simp at hc
+    · intro f' hf' hc; rw [hf] at hf'; injection hf' with hf'; subst hf'
+      exact absurd hc hns
+    · simp only; rw [← hinv.len, List.take_length]
+    · rfl
+    · rfl
+  · intro _; exact ⟨rfl, rfl⟩
+
+
+theorem counter_not_label (f : FieldSpec) (h : isCounterTy f = true) : isLabelTy f.ty = false := by
+  cases hl : isLabelTy f.ty with
+  | false => rfl
+  | true => rw [label_not_counter f hl] at h; simp at h
+
+theorem counter_not_lbl3 (f : FieldSpec) (h : isCounterTy f = true) : ¬ (f.ty = .prn ∨ f.ty = .cprn ∨ f.ty = .csig) := by
+  have := counter_not_label f h
+  intro hh
+  rcases hh with hh | hh | hh <;> simp [hh, isLabelTy] at this
+
+theorem counter_h0 (f : FieldSpec) (w : Nat) (h : isCounterTy f = true) : ¬ ((f.ty = .int ∨ f.ty = .snt) ∧ w = 0) := by
+  simp only [isCounterTy, Bool.and_eq_true, Bool.or_eq_true, beq_iff_eq] at h
+  intro hh
+  rcases h.1 with (h1 | h1) | h1 <;> rcases hh.1 with h2 | h2 <;> rw [h1] at h2 <;> simp at h2
+
+/-- the satellite mask DF394 (top level, before the maps are built) -/
+theorem sound_df394 (c : Ctx) (hy : Hyg c.T) (env : CEnv) (fid : Nat) (idx : List Nat) (s : DState) (f : FieldSpec)
+    (hf : c.T.field? fid = some f) (hc : isCounterTy f = true) (hw64 : f.width = 64)
+    (hsp : some fid = c.T.special.df394) (hm : env.maps = false) (hinv : Inv c.T env 0 idx s) :
+    Sound c.T ((env.add fid 0).add c.T.fidNSat 0) 0 idx s (decField c fid idx s) := by
+  have hlt := hy.below fid f hf
+  have n396 : some fid ≠ c.T.special.df396 := by rw [hsp]; exact hy.d2
+  have n038 : some fid ≠ c.T.special.idf038 := by rw [hsp]; exact hy.d3
+  have n395 : some fid ≠ c.T.special.df395 := by rw [hsp]; exact hy.d1
+  have hw := fieldWidth_plain c.T f fid s n396
+  have hidx : idx = [] := List.eq_nil_of_length_eq_zero hinv.len
+  rcases decField_pre c fid idx s f f.width hf (counter_not_label f hc) hw (counter_h0 f _ hc) hinv.typed with
+    h | ⟨bits, a', hb, hst, h⟩
+  · rw [h]; exact sound_short _ _ _ _ _
+  · have ha' : a' = s.attrs.set (fid, []) (.int bits) := by
+      rcases hst with ⟨_, e⟩ | ⟨e, _⟩
+      · rw [e, interp_counter f _ _ hc, hidx]
+      · exact absurd e (isCounter_not_str f hc)
+    have hfs : fieldSpecial c.T c.id c.label f fid idx f.width bits { s with off := s.off + f.width, attrs := a' }
+        = .ok { s with off := s.off + f.width, attrs := a'.set (c.T.fidNSat, []) (.int (popcount bits f.width)) } := by
+      unfold fieldSpecial msmSpecial
+      rw [if_pos hsp, if_neg (counter_not_lbl3 f hc)]
+      simp only
+      unfold harmSpecial
+      rw [if_neg n038]
+    rw [h, hfs]
+    apply sound_ok
+    · have b1 : Base c.T ((fid, 0) :: env.scope) 0 idx { s with off := s.off + f.width, attrs := a' } := by
+        apply base_set_field c.T env.scope 0 idx s _ fid 0 (.int bits) hinv.base hlt (Nat.le_refl _)
+        · intro _ _ _; exact ⟨bits, rfl⟩
+        · intro f' hf' hs'; rw [hf] at hf'; injection hf' with hf'; subst hf'
+          exact absurd hs' (isCounter_not_str f hc)
+        · simp only; rw [ha']; simp
+      have b2 := base_set_derived c.T hy _ 0 idx _
+        { s with off := s.off + f.width, attrs := a'.set (c.T.fidNSat, []) (.int (popcount bits f.width)) }
+        c.T.fidNSat (popcount bits f.width) b1 (by simp [Tables.fidNSat]) rfl
+      have keyNe : ∀ x l, x < c.T.nf → ((c.T.fidNSat, ([] : List Nat)) : AttrKey) ≠ (x, l) := by
+        intro x l hx e; injection e with e _; simp [Tables.fidNSat] at e; omega
+      have hOwn : M394 c.T ((env.add fid 0).add c.T.fidNSat 0)
+          { s with off := s.off + f.width, attrs := a'.set (c.T.fidNSat, []) (.int (popcount bits f.width)) } := by
+        intro _ a hs
+        rw [← hsp] at hs; injection hs with hs; subst hs
+        refine ⟨bits, by rw [← hw64]; exact hb, ?_, ?_⟩
+        · simp only
+          rw [Attrs.get?_set_ne _ _ _ _ (keyNe _ _ hlt), ha', Attrs.get?_set_eq]
+        · simp only
+          rw [Attrs.get?_set_eq, hw64]
+      have hOther : M395 c.T ((env.add fid 0).add c.T.fidNSat 0)
+          { s with off := s.off + f.width, attrs := a'.set (c.T.fidNSat, []) (.int (popcount bits f.width)) } := by
+        intro hh a hs
+        obtain ⟨a5, e5, l5⟩ := hy.s395
+        rw [hs] at e5; injection e5 with e5; subst e5
+        have hne : a ≠ fid := by
+          intro e; apply n395; rw [hs, e]
+        simp only [CEnv.add, has_cons, Bool.or_eq_true, Bool.and_eq_true, beq_iff_eq] at hh
+        have hh' : env.scope.has c.T.fidNSig 0 = true := by
+          rcases hh with ⟨e, _⟩ | ⟨e, _⟩ | hh
+          · simp [Tables.fidNSat, Tables.fidNSig] at e
+          · simp [Tables.fidNSig] at e; omega
+          · exact hh
+        obtain ⟨m, hm', g1, g2⟩ := hinv.m395 hh' a hs
+        refine ⟨m, hm', ?_, ?_⟩
+        · simp only
+          rw [Attrs.get?_set_ne _ _ _ _ (keyNe _ _ l5), ha',
+            Attrs.get?_set_ne _ _ _ _ (by intro e; injection e with e _; exact hne e.symm)]
+          exact g1
+        · simp only
+          rw [Attrs.get?_set_ne _ _ _ _ (by intro e; injection e with e _; simp [Tables.fidNSat, Tables.fidNSig] at e), ha',
+            Attrs.get?_set_ne _ _ _ _ (by intro e; injection e with e _; simp [Tables.fidNSig] at e; omega)]
+          exact g2
+      exact ⟨b2.len, b2.typed, b2.scope, fun hm' => by simp [CEnv.add, hm] at hm',
+        fun i rest hi => by rw [hidx] at hi; simp at hi, hOwn, hOther⟩
+    · intro h1; omega
+
+/-- the signal mask DF395 (top level, before the maps are built) -/
+theorem sound_df395 (c : Ctx) (hy : Hyg c.T) (env : CEnv) (fid : Nat) (idx : List Nat) (s : DState) (f : FieldSpec)
+    (hf : c.T.field? fid = some f) (hc : isCounterTy f = true) (hw32 : f.width = 32)
+    (hsp : some fid = c.T.special.df395) (hm : env.maps = false) (hinv : Inv c.T env 0 idx s) :
+    Sound c.T ((env.add fid 0).add c.T.fidNSig 0) 0 idx s (decField c fid idx s) := by
+  have hlt := hy.below fid f hf
+  have n396 : some fid ≠ c.T.special.df396 := by rw [hsp]; exact hy.d4
+  have n038 : some fid ≠ c.T.special.idf038 := by rw [hsp]; exact hy.d5
+  have n394 : some fid ≠ c.T.special.df394 := by rw [hsp]; exact fun e => hy.d1 e.symm
+  have hw := fieldWidth_plain c.T f fid s n396
+  have hidx : idx = [] := List.eq_nil_of_length_eq_zero hinv.len
+  rcases decField_pre c fid idx s f f.width hf (counter_not_label f hc) hw (counter_h0 f _ hc) hinv.typed with
+    h | ⟨bits, a', hb, hst, h⟩
+  · rw [h]; exact sound_short _ _ _ _ _
+  · have ha' : a' = s.attrs.set (fid, []) (.int bits) := by
+      rcases hst with ⟨_, e⟩ | ⟨e, _⟩
+      · rw [e, interp_counter f _ _ hc, hidx]
+      · exact absurd e (isCounter_not_str f hc)
+    have hfs : fieldSpecial c.T c.id c.label f fid idx f.width bits { s with off := s.off + f.width, attrs := a' }
+        = .ok { s with off := s.off + f.width, attrs := a'.set (c.T.fidNSig, []) (.int (popcount bits f.width)) } := by
+      unfold fieldSpecial msmSpecial
+      rw [if_neg n394, if_pos hsp, if_neg (counter_not_lbl3 f hc)]
+      simp only
+      unfold harmSpecial
+      rw [if_neg n038]
+    rw [h, hfs]
+    apply sound_ok
+    · have b1 : Base c.T ((fid, 0) :: env.scope) 0 idx { s with off := s.off + f.width, attrs := a' } := by
+        apply base_set_field c.T env.scope 0 idx s _ fid 0 (.int bits) hinv.base hlt (Nat.le_refl _)
+        · intro _ _ _; exact ⟨bits, rfl⟩
+        · intro f' hf' hs'; rw [hf] at hf'; injection hf' with hf'; subst hf'
+          exact absurd hs' (isCounter_not_str f hc)
+        · simp only; rw [ha']; simp
+      have b2 := base_set_derived c.T hy _ 0 idx _
+        { s with off := s.off + f.width, attrs := a'.set (c.T.fidNSig, []) (.int (popcount bits f.width)) }
+        c.T.fidNSig (popcount bits f.width) b1 (by simp [Tables.fidNSig]) rfl
+      have keyNe : ∀ x l, x < c.T.nf → ((c.T.fidNSig, ([] : List Nat)) : AttrKey) ≠ (x, l) := by
+        intro x l hx e; injection e with e _; simp [Tables.fidNSig] at e; omega
+      have hOwn : M395 c.T ((env.add fid 0).add c.T.fidNSig 0)
+          { s with off := s.off + f.width, attrs := a'.set (c.T.fidNSig, []) (.int (popcount bits f.width)) } := by
+        intro _ a hs
+        rw [← hsp] at hs; injection hs with hs; subst hs
+        refine ⟨bits, by rw [← hw32]; exact hb, ?_, ?_⟩
+        · simp only
+          rw [Attrs.get?_set_ne _ _ _ _ (keyNe _ _ hlt), ha', Attrs.get?_set_eq]
+        · simp only
+          rw [Attrs.get?_set_eq, hw32]
+      have hOther : M394 c.T ((env.add fid 0).add c.T.fidNSig 0)
+          { s with off := s.off + f.width, attrs := a'.set (c.T.fidNSig, []) (.int (popcount bits f.width)) } := by
+        intro hh a hs
+        obtain ⟨a5, e5, l5⟩ := hy.s394
+        rw [hs] at e5; injection e5 with e5; subst e5
+        have hne : a ≠ fid := by
+          intro e; apply n394; rw [hs, e]
+        simp only [CEnv.add, has_cons, Bool.or_eq_true, Bool.and_eq_true, beq_iff_eq] at hh
+        have hh' : env.scope.has c.T.fidNSat 0 = true := by
+          rcases hh with ⟨e, _⟩ | ⟨e, _⟩ | hh
+          · simp [Tables.fidNSig, Tables.fidNSat] at e
+          · simp [Tables.fidNSat] at e; omega
+          · exact hh
+        obtain ⟨m, hm', g1, g2⟩ := hinv.m394 hh' a hs
+        refine ⟨m, hm', ?_, ?_⟩
+        · simp only
+          rw [Attrs.get?_set_ne _ _ _ _ (keyNe _ _ l5), ha',
+            Attrs.get?_set_ne _ _ _ _ (by intro e; injection e with e _; exact hne e.symm)]
+          exact g1
+        · simp only
+          rw [Attrs.get?_set_ne _ _ _ _ (by intro e; injection e with e _; simp [Tables.fidNSig, Tables.fidNSat] at e), ha',
+            Attrs.get?_set_ne _ _ _ _ (by intro e; injection e with e _; simp [Tables.fidNSat] at e; omega)]
+          exact g2
+      exact ⟨b2.len, b2.typed, b2.scope, fun hm' => by simp [CEnv.add, hm] at hm',
+        fun i rest hi => by rw [hidx] at hi; simp at hi, hOther, hOwn⟩
+    · intro h1; omega
+
+
+theorem satCellMaps_ok (T : Tables) (id : Ident) (label a b d : Nat)
+    (h : ((ident3 id).bind (assocGet T.prnsig)).isSome = true) (ha : a < 2 ^ 64) (hb : b < 2 ^ 32) :
+    ∃ sm cm, satCellMaps T id label a b d = .ok (sm, cm) ∧ sm.length = popcount a 64
+      ∧ cm.length = popcount d (popcount a 64 * popcount b 32) := by
+  unfold satCellMaps
+  cases hp : (ident3 id).bind (assocGet T.prnsig) with
+  | none => rw [hp] at h; simp at h
+  | some pm =>
+    obtain ⟨prnmap, sigmap⟩ := pm
+    refine ⟨_, _, rfl, ?_, ?_⟩
+    · simp [setIdx_length_of_lt a 64 ha]
+    · simp [setCells_length, setIdx_length_of_lt a 64 ha, setIdx_length_of_lt b 32 hb]
+
+theorem getNat_of_int (s : DState) (k : AttrKey) (n : Nat) (h : s.attrs.get? k = some (.int n)) :
+    getNat s k = .ok n := by
+  simp [getNat, getInt_of_int s k n h]
+
+
+/-- the cell mask DF396: its width is NSat × NSig, and decoding it builds the maps -/
+theorem sound_df396 (c : Ctx) (hy : Hyg c.T) (env : CEnv) (fid : Nat) (idx : List Nat) (s : DState) (f : FieldSpec)
+    (hf : c.T.field? fid = some f) (hc : isCounterTy f = true)
+    (hsp : some fid = c.T.special.df396) (hm : env.maps = false)
+    (hs1 : env.scope.has c.T.fidNSat 0 = true) (hs2 : env.scope.has c.T.fidNSig 0 = true)
+    (hprn : ((ident3 c.id).bind (assocGet c.T.prnsig)).isSome = true)
+    (hinv : Inv c.T env 0 idx s) :
+    Sound c.T { ((env.add fid 0).add c.T.fidNCell 0) with maps := true } 0 idx s (decField c fid idx s) := by
+  have hlt := hy.below fid f hf
+  obtain ⟨a4, e4, l4⟩ := hy.s394
+  obtain ⟨a5, e5, l5⟩ := hy.s395
+  have n394 : some fid ≠ c.T.special.df394 := by rw [hsp]; exact fun e => hy.d2 e.symm
+  have n395 : some fid ≠ c.T.special.df395 := by rw [hsp]; exact fun e => hy.d4 e.symm
+  have n038 : some fid ≠ c.T.special.idf038 := by rw [hsp]; exact hy.d6
+  have hf4 : fid ≠ a4 := fun e => n394 (by rw [e4, e])
+  have hf5 : fid ≠ a5 := fun e => n395 (by rw [e5, e])
+  have hidx : idx = [] := List.eq_nil_of_length_eq_zero hinv.len
+  obtain ⟨m4, hm4, g41, g42⟩ := hinv.m394 hs1 a4 e4
+  obtain ⟨m5, hm5, g51, g52⟩ := hinv.m395 hs2 a5 e5
+  have hw : fieldWidth c.T f fid s = .ok (popcount m4 64 * popcount m5 32) := by
+    unfold fieldWidth
+    rw [if_pos hsp, getNat_of_int s _ _ g42, getNat_of_int s _ _ g52]
+  rcases decField_pre c fid idx s f _ hf (counter_not_label f hc) hw (counter_h0 f _ hc) hinv.typed with
+    h | ⟨bits, a', hb, hst, h⟩
+  · rw [h]; exact sound_short _ _ _ _ _
+  · have ha' : a' = s.attrs.set (fid, []) (.int bits) := by
+      rcases hst with ⟨_, e⟩ | ⟨e, _⟩
+      · rw [e, interp_counter f _ _ hc, hidx]
+      · exact absurd e (isCounter_not_str f hc)
+    obtain ⟨sm, cm, hsc, hsl, hcl⟩ := satCellMaps_ok c.T c.id c.label m4 m5 bits hprn hm4 hm5
+    let w := popcount m4 64 * popcount m5 32
+    let A := a'.set (c.T.fidNCell, []) (.int (popcount bits w))
+    have keyNe : ∀ x l, x < c.T.nf → ((c.T.fidNCell, ([] : List Nat)) : AttrKey) ≠ (x, l) := by
+      intro x l hx e; injection e with e _; simp [Tables.fidNCell] at e; omega
+    have gA4 : A.get? (a4, []) = some (.int m4) := by
+      simp only [A]
+      rw [Attrs.get?_set_ne _ _ _ _ (keyNe _ _ l4), ha',
+        Attrs.get?_set_ne _ _ _ _ (by intro e; injection e with e _; exact hf4 e)]
+      exact g41
+    have gA5 : A.get? (a5, []) = some (.int m5) := by
+      simp only [A]
+      rw [Attrs.get?_set_ne _ _ _ _ (keyNe _ _ l5), ha',
+        Attrs.get?_set_ne _ _ _ _ (by intro e; injection e with e _; exact hf5 e)]
+      exact g51
+    have gAf : A.get? (fid, []) = some (.int bits) := by
+      simp only [A]
+      rw [Attrs.get?_set_ne _ _ _ _ (keyNe _ _ hlt), ha', Attrs.get?_set_eq]
+    have hfs : fieldSpecial c.T c.id c.label f fid idx w bits { s with off := s.off + w, attrs := a' }
+        = .ok { s with off := s.off + w, attrs := A, satmap := some sm, cellmap := some cm } := by
+      unfold fieldSpecial msmSpecial
+      rw [if_neg n394, if_neg n395, if_pos hsp, if_neg (counter_not_lbl3 f hc)]
+      simp only [e4, e5]
+      rw [gA4, gA5, gAf]
+      simp only [Val.asInt?]
+      have hnn : ¬ ((m4 : Int) < 0 ∨ (m5 : Int) < 0 ∨ (bits : Int) < 0) := by omega
+      rw [if_neg hnn]
+      simp only [Int.toNat_natCast, hsc]
+      unfold harmSpecial
+      rw [if_neg n038]
+    rw [h, hfs]
+    apply sound_ok
+    · have b1 : Base c.T ((fid, 0) :: env.scope) 0 idx { s with off := s.off + w, attrs := a' } := by
+        apply base_set_field c.T env.scope 0 idx s _ fid 0 (.int bits) hinv.base hlt (Nat.le_refl _)
+        · intro _ _ _; exact ⟨bits, rfl⟩
+        · intro f' hf' hs'; rw [hf] at hf'; injection hf' with hf'; subst hf'
+          exact absurd hs' (isCounter_not_str f hc)
+        · simp only; rw [ha']; simp
+      have b2 := base_set_derived c.T hy _ 0 idx _
+        { s with off := s.off + w, attrs := A, satmap := some sm, cellmap := some cm }
+        c.T.fidNCell (popcount bits w) b1 (by simp [Tables.fidNCell]) rfl
+      have gNSat : A.get? (c.T.fidNSat, []) = some (.int (popcount m4 64)) := by
+        simp only [A]
+        rw [Attrs.get?_set_ne _ _ _ _ (by intro e; injection e with e _; simp [Tables.fidNCell, Tables.fidNSat] at e), ha',
+          Attrs.get?_set_ne _ _ _ _ (by intro e; injection e with e _; simp [Tables.fidNSat] at e; omega)]
+        exact g42
+      have gNSig : A.get? (c.T.fidNSig, []) = some (.int (popcount m5 32)) := by
+        simp only [A]
+        rw [Attrs.get?_set_ne _ _ _ _ (by intro e; injection e with e _; simp [Tables.fidNCell, Tables.fidNSig] at e), ha',
+          Attrs.get?_set_ne _ _ _ _ (by intro e; injection e with e _; simp [Tables.fidNSig] at e; omega)]
+        exact g52
+      refine ⟨b2.len, b2.typed, b2.scope, ?_, ?_, ?_, ?_⟩
+      · intro _
+        refine ⟨sm, cm, rfl, rfl, ?_, ?_⟩
+        · simp only; rw [gNSat, hsl]
+        · simp only; simp only [A]; rw [Attrs.get?_set_eq, hcl]
+      · intro i rest hi; rw [hidx] at hi; simp at hi
+      · intro _ a hs
+        rw [e4] at hs; injection hs with hs; subst hs
+        exact ⟨m4, hm4, gA4, gNSat⟩
+      · intro _ a hs
+        rw [e5] at hs; injection hs with hs; subst hs
+        exact ⟨m5, hm5, gA5, gNSig⟩
+    · intro h1; omega
+
+
+/-- IDF038 (order of a 4076_201 layer): derives the two coefficient counts -/
+theorem sound_idf038 (c : Ctx) (hy : Hyg c.T) (env : CEnv) (fid g : Nat) (idx : List Nat) (s : DState) (f : FieldSpec)
+    (hf : c.T.field? fid = some f) (hc : isCounterTy f = true)
+    (hsp : some fid = c.T.special.idf038) (h037 : c.T.special.idf037 = some g)
+    (hg1 : env.scope.has g 1 = true) (hg2 : counterField c.T g = true)
+    (hinv : Inv c.T env 1 idx s) :
+    Sound c.T (((env.add fid 1).add c.T.fidNHarmC 0).add c.T.fidNHarmS 0) 1 idx s (decField c fid idx s) := by
+  have hlt := hy.below fid f hf
+  have n394 : some fid ≠ c.T.special.df394 := by rw [hsp]; exact fun e => hy.d3 e.symm
+  have n395 : some fid ≠ c.T.special.df395 := by rw [hsp]; exact fun e => hy.d5 e.symm
+  have n396 : some fid ≠ c.T.special.df396 := by rw [hsp]; exact fun e => hy.d6 e.symm
+  have hw := fieldWidth_plain c.T f fid s n396
+  obtain ⟨i, hidx⟩ : ∃ i, idx = [i] := by
+    match idx, hinv.len with
+    | [i], _ => exact ⟨i, rfl⟩
+  rcases decField_pre c fid idx s f f.width hf (counter_not_label f hc) hw (counter_h0 f _ hc) hinv.typed with
+    h | ⟨bits, a', hb, hst, h⟩
+  · rw [h]; exact sound_short _ _ _ _ _
+  · have ha' : a' = s.attrs.set (fid, idx) (.int bits) := by
+      rcases hst with ⟨_, e⟩ | ⟨e, _⟩
+      · rw [e, interp_counter f _ _ hc]
+      · exact absurd e (isCounter_not_str f hc)
+    -- invariant after the plain store
+    have inv1 : Inv c.T (env.add fid 1) 1 idx { s with off := s.off + f.width, attrs := a' } := by
+      apply inv_set c.T hy env 1 idx s _ fid 1 (.int bits) hinv hlt (Nat.le_refl _)
+        (fun e => n394 e.symm) (fun e => n395 e.symm)
+      · intro _ _ _; exact ⟨bits, rfl⟩
+      · intro f' hf' hs'; rw [hf] at hf'; injection hf' with hf'; subst hf'
+        exact absurd hs' (isCounter_not_str f hc)
+      · simp only; rw [ha', ← hinv.len, List.take_length]
+      · rfl
+      · rfl
+    -- the degree attribute is an int
+    obtain ⟨n0, hn0⟩ : ∃ n0 : Nat, a'.get? (g, [i]) = some (.int n0) := by
+      have hsome := (inv1.scope g 1 (by simp [CEnv.add, has_cons, hg1])).2
+      simp only [hidx, List.take_succ_cons, List.take_zero] at hsome
+      cases hv : a'.get? (g, [i]) with
+      | none => rw [hv] at hsome; simp at hsome
+      | some v =>
+        simp only [counterField] at hg2
+        cases hfg : c.T.field? g with
+        | none => rw [hfg] at hg2; simp at hg2
+        | some fg =>
+          rw [hfg] at hg2
+          obtain ⟨n, hn⟩ := (inv1.typed (g, [i]) v hv).1 fg hfg hg2
+          exact ⟨n, by rw [hn]⟩
+    have hm0 : a'.get? (fid, [i]) = some (.int bits) := by rw [ha', hidx, Attrs.get?_set_eq]
+    obtain ⟨nc, ns, hfs⟩ : ∃ nc ns : Int,
+        fieldSpecial c.T c.id c.label f fid idx f.width bits { s with off := s.off + f.width, attrs := a' }
+        = .ok { s with off := s.off + f.width,
+                       attrs := (a'.set (c.T.fidNHarmC, []) (.int nc)).set (c.T.fidNHarmS, []) (.int ns) } := by
+      refine ⟨(((n0 : Int) + 1 + 1) * ((n0 : Int) + 1 + 2) / 2
+          - (((n0 : Int) + 1) - ((bits : Int) + 1)) * (((n0 : Int) + 1) - ((bits : Int) + 1) + 1) / 2),
+        (((n0 : Int) + 1 + 1) * ((n0 : Int) + 1 + 2) / 2
+          - (((n0 : Int) + 1) - ((bits : Int) + 1)) * (((n0 : Int) + 1) - ((bits : Int) + 1) + 1) / 2) - ((n0 : Int) + 1 + 1), ?_⟩
+      unfold fieldSpecial msmSpecial
+      rw [if_neg n394, if_neg n395, if_neg n396]
+      simp only
+      unfold harmSpecial
+      rw [if_pos hsp]
+      simp only [hidx, h037]
+      rw [getInt_of_int _ _ _ hn0, getInt_of_int _ _ _ hm0]
+    rw [h, hfs]
+    apply sound_ok
+    · have inv2 := inv_set_derived c.T hy (env.add fid 1) 1 idx _
+        { s with off := s.off + f.width, attrs := a'.set (c.T.fidNHarmC, []) (.int nc) }
+        c.T.fidNHarmC nc inv1 (Or.inl rfl) rfl rfl rfl
+      exact inv_set_derived c.T hy _ 1 idx _
+        { s with off := s.off + f.width, attrs := (a'.set (c.T.fidNHarmC, []) (.int nc)).set (c.T.fidNHarmS, []) (.int ns) }
+        c.T.fidNHarmS ns inv2 (Or.inr rfl) rfl rfl rfl
+    · intro _; exact ⟨rfl, rfl⟩
+
+
+/-- the `| _ =>` branch of `ckField`: unsigned fields, among them the four special ones -/
+theorem sound_unsigned (c : Ctx) (hy : Hyg c.T) (env env' : CEnv) (d fid : Nat) (idx : List Nat) (s : DState)
+    (f : FieldSpec) (hf : c.T.field? fid = some f) (hu : f.ty = .bit ∨ f.ty = .bitx ∨ f.ty = .uint)
+    (hck : (if some fid == c.T.special.df394 then
+        if d == 0 && !env.maps && isCounterTy f && f.width == 64 then some ((env.add fid d).add c.T.fidNSat 0) else none
+      else if some fid == c.T.special.df395 then
+        if d == 0 && !env.maps && isCounterTy f && f.width == 32 then some ((env.add fid d).add c.T.fidNSig 0) else none
+      else if some fid == c.T.special.df396 then
+        if d == 0 && !env.maps && isCounterTy f && env.scope.has c.T.fidNSat 0 && env.scope.has c.T.fidNSig 0
+            && (c.T.special.df394.any fun a => env.scope.has a 0)
+            && (c.T.special.df395.any fun a => env.scope.has a 0)
+            && ((ident3 c.id).bind (assocGet c.T.prnsig)).isSome then
+          some { ((env.add fid d).add c.T.fidNCell 0) with maps := true } else none
+      else if some fid == c.T.special.idf038 then
+        if d == 1 && isCounterTy f && (c.T.special.idf037.any fun a => env.scope.has a 1 && counterField c.T a) then
+          some (((env.add fid d).add c.T.fidNHarmC 0).add c.T.fidNHarmS 0) else none
+      else some (env.add fid d)) = some env')
+    (hinv : Inv c.T env d idx s) : Sound c.T env' d idx s (decField c fid idx s) := by
+  have hl : isLabelTy f.ty = false := by rcases hu with h | h | h <;> simp [h, isLabelTy]
+  have hns : f.ty ≠ .str := by rcases hu with h | h | h <;> simp [h]
+  have h0 : ¬ ((f.ty = .int ∨ f.ty = .snt) ∧ f.width = 0) := by
+    rcases hu with h | h | h <;> simp [h]
+  by_cases c1 : some fid = c.T.special.df394
+  · simp only [c1, beq_self_eq_true, if_true] at hck
+    split at hck
+    · rename_i hc
+      injection hck with hck; subst hck
+      simp only [Bool.and_eq_true, beq_iff_eq, Bool.not_eq_true'] at hc
+      obtain ⟨⟨⟨hd, hm⟩, hcnt⟩, hw⟩ := hc
+      subst hd
+      exact sound_df394 c hy env fid idx s f hf hcnt hw c1 hm hinv
+    · simp at hck
+  · have c1' : (some fid == c.T.special.df394) = false := by simpa using c1
+    simp only [c1', Bool.false_eq_true, if_false] at hck
+    by_cases c2 : some fid = c.T.special.df395
+    · simp only [c2, beq_self_eq_true, if_true] at hck
+      split at hck
+      · rename_i hc
+        injection hck with hck; subst hck
+        simp only [Bool.and_eq_true, beq_iff_eq, Bool.not_eq_true'] at hc
+        obtain ⟨⟨⟨hd, hm⟩, hcnt⟩, hw⟩ := hc
+        subst hd
+        exact sound_df395 c hy env fid idx s f hf hcnt hw c2 hm hinv
+      · simp at hck
+    · have c2' : (some fid == c.T.special.df395) = false := by simpa using c2
+      simp only [c2', Bool.false_eq_true, if_false] at hck
+      by_cases c3 : some fid = c.T.special.df396
+      · simp only [c3, beq_self_eq_true, if_true] at hck
+        split at hck
+        · rename_i hc
+          injection hck with hck; subst hck
+          simp only [Bool.and_eq_true, beq_iff_eq, Bool.not_eq_true'] at hc
+          obtain ⟨⟨⟨⟨⟨⟨⟨hd, hm⟩, hcnt⟩, hs1⟩, hs2⟩, _⟩, _⟩, hprn⟩ := hc
+          subst hd
+          exact sound_df396 c hy env fid idx s f hf hcnt c3 hm hs1 hs2 hprn hinv
+        · simp at hck
+      · have c3' : (some fid == c.T.special.df396) = false := by simpa using c3
+        simp only [c3', Bool.false_eq_true, if_false] at hck
+        by_cases c4 : some fid = c.T.special.idf038
+        · simp only [c4, beq_self_eq_true, if_true] at hck
+          split at hck
+          · rename_i hc
+            injection hck with hck; subst hck
+            simp only [Bool.and_eq_true, beq_iff_eq] at hc
+            obtain ⟨⟨hd, hcnt⟩, hany⟩ := hc
+            subst hd
+            cases h037 : c.T.special.idf037 with
+            | none => rw [h037] at hany; simp at hany
+            | some g =>
+              rw [h037] at hany
+              simp only [Option.any_some, Bool.and_eq_true] at hany
+              exact sound_idf038 c hy env fid g idx s f hf hcnt c4 h037 hany.1 hany.2 hinv
+          · simp at hck
+        · have c4' : (some fid == c.T.special.idf038) = false := by simpa using c4
+          simp only [c4', Bool.false_eq_true, if_false] at hck
+          injection hck with hck; subst hck
+          have hsp : isSpecial c.T fid = false := by
+            simp [isSpecial, c1', c2', c3', c4']
+          have := sound_plain c hy env d fid idx s f hf hl hsp h0 hinv
+          rwa [if_neg hns] at this
+
+
+/-- **one field occurrence**: if the checker accepts it in `env`, decoding it from a state satisfying
+    the invariant either runs out of payload or re-establishes the invariant for the new `env'` -/
+theorem ckField_sound (c : Ctx) (hy : Hyg c.T) (env env' : CEnv) (d fid : Nat) (idx : List Nat) (s : DState)
+    (hck : ckField c.T c.id env d fid = some env') (hinv : Inv c.T env d idx s) :
+    Sound c.T env' d idx s (decField c fid idx s) := by
+  unfold ckField at hck
+  cases hf : c.T.field? fid with
+  | none => simp [hf] at hck
+  | some f =>
+    simp only [hf] at hck
+    cases hty : f.ty <;> simp only [hty] at hck
+    case bit => exact sound_unsigned c hy env env' d fid idx s f hf (Or.inl hty) hck hinv
+    case bitx => exact sound_unsigned c hy env env' d fid idx s f hf (Or.inr (Or.inl hty)) hck hinv
+    case uint => exact sound_unsigned c hy env env' d fid idx s f hf (Or.inr (Or.inr hty)) hck hinv
+    case other => simp at hck
+    case cha =>
+      split at hck
+      · rename_i hc
+        injection hck with hck; subst hck
+        simp only [Bool.not_eq_true'] at hc
+        have := sound_plain c hy env d fid idx s f hf (by simp [hty, isLabelTy]) hc (by simp [hty]) hinv
+        rwa [if_neg (by simp [hty])] at this
+      · simp at hck
+    case str =>
+      split at hck
+      · rename_i hc
+        injection hck with hck; subst hck
+        simp only [Bool.not_eq_true'] at hc
+        have := sound_plain c hy env d fid idx s f hf (by simp [hty, isLabelTy]) hc (by simp [hty]) hinv
+        rwa [if_pos hty] at this
+      · simp at hck
+    case int =>
+      split at hck
+      · rename_i hc
+        injection hck with hck; subst hck
+        simp only [Bool.and_eq_true, bne_iff_ne, ne_eq, Bool.not_eq_true'] at hc
+        have := sound_plain c hy env d fid idx s f hf (by simp [hty, isLabelTy]) hc.2 (by simp [hc.1]) hinv
+        rwa [if_neg (by simp [hty])] at this
+      · simp at hck
+    case snt =>
+      split at hck
+      · rename_i hc
+        injection hck with hck; subst hck
+        simp only [Bool.and_eq_true, bne_iff_ne, ne_eq, Bool.not_eq_true'] at hc
+        have := sound_plain c hy env d fid idx s f hf (by simp [hty, isLabelTy]) hc.2 (by simp [hc.1]) hinv
+        rwa [if_neg (by simp [hty])] at this
+      · simp at hck
+    case prn =>
+      split at hck
+      · rename_i hc
+        injection hck with hck; subst hck
+        simp only [Bool.and_eq_true, decide_eq_true_eq, beq_iff_eq, Bool.not_eq_true'] at hc
+        obtain ⟨⟨⟨⟨hd, hm⟩, ho⟩, hw⟩, hsp⟩ := hc
+        exact sound_label c hy env d fid idx s f hf (by simp [hty, isLabelTy]) hsp hw hd hm
+          ⟨fun _ => ho, fun h => absurd hty h⟩ hinv
+      · simp at hck
+    case cprn =>
+      split at hck
+      · rename_i hc
+        injection hck with hck; subst hck
+        simp only [Bool.and_eq_true, decide_eq_true_eq, beq_iff_eq, Bool.not_eq_true'] at hc
+        obtain ⟨⟨⟨⟨hd, hm⟩, ho⟩, hw⟩, hsp⟩ := hc
+        exact sound_label c hy env d fid idx s f hf (by simp [hty, isLabelTy]) hsp hw hd hm
+          ⟨fun h => by rw [hty] at h; simp at h, fun _ => ho⟩ hinv
+      · simp at hck
+    case csig =>
+      split at hck
+      · rename_i hc
+        injection hck with hck; subst hck
+        simp only [Bool.and_eq_true, decide_eq_true_eq, beq_iff_eq, Bool.not_eq_true'] at hc
+        obtain ⟨⟨⟨⟨hd, hm⟩, ho⟩, hw⟩, hsp⟩ := hc
+        exact sound_label c hy env d fid idx s f hf (by simp [hty, isLabelTy]) hsp hw hd hm
+          ⟨fun h => by rw [hty] at h; simp at h, fun _ => ho⟩ hinv
+      · simp at hck
+
+
+/-! ### the checker only ever adds to the scope -/
+
+structure Mono (d : Nat) (e e' : CEnv) : Prop where
+  scope : ∀ f dp, e.scope.has f dp = true → e'.scope.has f dp = true
+  maps : e.maps = true → e'.maps = true
+  outer : e'.outer = e.outer
+  deep : 1 ≤ d → e'.maps = e.maps
+
+theorem mono_refl (d : Nat) (e : CEnv) : Mono d e e := ⟨fun _ _ h => h, fun h => h, rfl, fun _ => rfl⟩
+
+theorem mono_trans {d : Nat} {a b c : CEnv} (h1 : Mono d a b) (h2 : Mono d b c) : Mono d a c :=
+  ⟨fun f dp h => h2.scope f dp (h1.scope f dp h), fun h => h2.maps (h1.maps h), h2.outer.trans h1.outer,
+   fun hd => (h2.deep hd).trans (h1.deep hd)⟩
+
+theorem mono_add (d : Nat) (e : CEnv) (f dp : Nat) : Mono d e (e.add f dp) :=
+  ⟨fun f' dp' h => by simp [CEnv.add, has_cons, h], fun h => h, rfl, fun _ => rfl⟩
+
+theorem ckField_mono (T : Tables) (id : Ident) (env env' : CEnv) (d fid : Nat)
+    (h : ckField T id env d fid = some env') : Mono d env env' := by
+  unfold ckField at h
+  cases hf : T.field? fid with
+  | none => simp [hf] at h
+  | some f =>
+    simp only [hf] at h
+    have a1 := mono_add d env fid d
+    have a0 := mono_add d env fid 0
+    cases hty : f.ty <;> simp only [hty] at h
+    case other => simp at h
+    case prn =>
+      split at h
+      · injection h with h; subst h; exact a1
+      · simp at h
+    case cprn =>
+      split at h
+      · injection h with h; subst h; exact a1
+      · simp at h
+    case csig =>
+      split at h
+      · injection h with h; subst h; exact a1
+      · simp at h
+    case int =>
+      split at h
+      · injection h with h; subst h; exact a1
+      · simp at h
+    case snt =>
+      split at h
+      · injection h with h; subst h; exact a1
+      · simp at h
+    case cha =>
+      split at h
+      · injection h with h; subst h; exact a1
+      · simp at h
+    case str =>
+      split at h
+      · injection h with h; subst h; exact a0
+      · simp at h
+    all_goals (
+      split at h
+      · split at h
+        · injection h with h; subst h; exact mono_trans a1 (mono_add d _ _ _)
+        · simp at h
+      · split at h
+        · split at h
+          · injection h with h; subst h; exact mono_trans a1 (mono_add d _ _ _)
+          · simp at h
+        · split at h
+          · split at h
+            · rename_i hc
+              injection h with h; subst h
+              simp only [Bool.and_eq_true, beq_iff_eq] at hc
+              have hd0 : d = 0 := hc.1.1.1.1.1.1.1
+              refine ⟨fun f' dp' hh => by simp [CEnv.add, has_cons, hh], fun _ => rfl, rfl, fun hd => by omega⟩
+            · simp at h
+          · split at h
+            · split at h
+              · injection h with h; subst h
+                exact mono_trans a1 (mono_trans (mono_add d _ _ _) (mono_add d _ _ _))
+              · simp at h
+            · injection h with h; subst h; exact a1)
+
+theorem map_const_some {α β : Type} (o : Option α) (b b' : β) (h : o.map (fun _ => b) = some b') :
+    b' = b ∧ ∃ a, o = some a := by
+  cases o with
+  | none => simp at h
+  | some a => simp at h; exact ⟨h.symm, a, rfl⟩
+
+theorem ckItem_mono (T : Tables) (id : Ident) (d : Nat) (it : Item) (env env' : CEnv)
+    (h : ckItem T id d it env = some env') : Mono d env env' := by
+  cases it with
+  | field fid => simp only [ckItem] at h; exact ckField_mono T id env env' d fid h
+  | group cnt body =>
+    cases cnt with
+    | fixed n =>
+      simp only [ckItem] at h
+      rw [(map_const_some _ _ _ h).1]; exact mono_refl d env
+    | attr fid nest =>
+      simp only [ckItem] at h
+      split at h
+      · rw [(map_const_some _ _ _ h).1]; exact mono_refl d env
+      · simp at h
+  | opt fid v body =>
+    simp only [ckItem] at h
+    split at h
+    · rw [(map_const_some _ _ _ h).1]; exact mono_refl d env
+    · simp at h
+  | malformed m => simp [ckItem] at h
+
+theorem ckItems_mono (T : Tables) (id : Ident) (d : Nat) (l : List Item) (env env' : CEnv)
+    (h : ckItems T id d l env = some env') : Mono d env env' := by
+  induction l generalizing env with
+  | nil => simp only [ckItems] at h; injection h with h; subst h; exact mono_refl d env
+  | cons it rest ih =>
+    simp only [ckItems] at h
+    cases hi : ckItem T id d it env with
+    | none => simp [hi] at h
+    | some e1 =>
+      simp only [hi] at h
+      exact mono_trans (ckItem_mono T id d it env e1 hi) (ih e1 h)
+
+
+/-! ### groups -/
+
+theorem repLoop_sound (f : Nat → DState → Except DecErr DState) (P : DState → Prop) (n : Nat)
+    (hstep : ∀ i s, 1 ≤ i → i ≤ n → P s →
+      (∀ e, f i s = .error e → e = .short) ∧ (∀ s', f i s = .ok s' → P s')) :
+    ∀ (k i : Nat) (s : DState), 1 ≤ i → i + k ≤ n + 1 → P s →
+      (∀ e, repLoop f k i s = .error e → e = .short) ∧ (∀ s', repLoop f k i s = .ok s' → P s') := by
+  intro k
+  induction k with
+  | zero =>
+    intro i s _ _ hp
+    simp only [repLoop]
+    exact ⟨fun e h => by simp at h, fun s' h => by injection h with h; subst h; exact hp⟩
+  | succ k ih =>
+    intro i s hi hk hp
+    simp only [repLoop]
+    obtain ⟨h1, h2⟩ := hstep i s hi (by omega) hp
+    cases hf : f i s with
+    | error e =>
+      simp only
+      exact ⟨fun e' h => by injection h with h; subst h; exact h1 e hf, fun s' h => by simp at h⟩
+    | ok s1 =>
+      simp only
+      exact ih (i + 1) s1 (by omega) (by omega) (h2 s1 hf)
+
+/-- the repeat count of a group the checker accepted is an integer attribute that is set -/
+theorem countOf_ok (c : Ctx) (hy : Hyg c.T) (env : CEnv) (d : Nat) (idx : List Nat) (s : DState) (fid nest : Nat)
+    (hck : ckCounter c.T env d fid nest = true) (hinv : Inv c.T env d idx s) :
+    ∃ n, countOf c (.attr fid nest) idx s = .ok n
+      ∧ (nest = 0 → env.maps = true → fid = c.T.fidNSat → ∃ sm, s.satmap = some sm ∧ n = sm.length)
+      ∧ (nest = 0 → env.maps = true → fid = c.T.fidNCell → ∃ cm, s.cellmap = some cm ∧ n = cm.length) := by
+  simp only [ckCounter, Bool.and_eq_true, Bool.or_eq_true, decide_eq_true_eq] at hck
+  obtain ⟨⟨hn, hsc⟩, hty⟩ := hck
+  obtain ⟨_, hsome⟩ := hinv.scope fid nest hsc
+  have hlen : ¬ idx.length < nest := by rw [hinv.len]; omega
+  cases hv : s.attrs.get? (fid, idx.take nest) with
+  | none => rw [hv] at hsome; simp at hsome
+  | some v =>
+    obtain ⟨i, hi⟩ : ∃ i : Int, v = .int i := by
+      rcases hty with hcf | hge
+      · simp only [counterField] at hcf
+        cases hf : c.T.field? fid with
+        | none => rw [hf] at hcf; simp at hcf
+        | some f =>
+          rw [hf] at hcf
+          obtain ⟨n, hn⟩ := (hinv.typed _ v hv).1 f hf hcf
+          exact ⟨n, hn⟩
+      · exact (hinv.typed _ v hv).2.2 hge
+    subst hi
+    have hgi : getInt s (fid, idx.take nest) = .ok i := getInt_of_int s _ i hv
+    refine ⟨(if nest = 0 ∧ some fid = c.T.special.idf035 then i + 1 else i).toNat,
+      by simp only [countOf, if_neg hlen, hgi], ?_, ?_⟩
+    · intro h0 hm hf
+      subst h0 hf
+      obtain ⟨sm, cm, e1, _, e3, _⟩ := hinv.maps hm
+      simp only [List.take_zero] at hv
+      rw [e3] at hv; injection hv with hv; injection hv with hv
+      have hne : ¬ (0 = 0 ∧ some c.T.fidNSat = c.T.special.idf035) := by
+        obtain ⟨a, ea, la⟩ := hy.s035
+        intro hh; rw [ea] at hh
+        have := hh.2; injection this with this; simp [Tables.fidNSat] at this; omega
+      exact ⟨sm, e1, by rw [if_neg hne, ← hv]; simp⟩
+    · intro h0 hm hf
+      subst h0 hf
+      obtain ⟨sm, cm, _, e2, _, e4⟩ := hinv.maps hm
+      simp only [List.take_zero] at hv
+      rw [e4] at hv; injection hv with hv; injection hv with hv
+      have hne : ¬ (0 = 0 ∧ some c.T.fidNCell = c.T.special.idf035) := by
+        obtain ⟨a, ea, la⟩ := hy.s035
+        intro hh; rw [ea] at hh
+        have := hh.2; injection this with this; simp [Tables.fidNCell] at this; omega
+      exact ⟨cm, e2, by rw [if_neg hne, ← hv]; simp⟩
+
+/-- entering iteration `i` of a group -/
+theorem inv_enter (T : Tables) (env : CEnv) (d : Nat) (idx : List Nat) (s : DState) (i : Nat) (o' : Option Nat)
+    (hinv : Inv T env d idx s) (hi : 1 ≤ i) (ho : 1 ≤ d → o' = env.outer)
+    (hbS : d = 0 → env.maps = true → o' = some T.fidNSat → ∃ sm, s.satmap = some sm ∧ i ≤ sm.length)
+    (hbC : d = 0 → env.maps = true → o' = some T.fidNCell → ∃ cm, s.cellmap = some cm ∧ i ≤ cm.length) :
+    Inv T { env with outer := o' } (d + 1) (idx ++ [i]) s := by
+  refine ⟨by simp [hinv.len], hinv.typed, ?_, hinv.maps, ?_, hinv.m394, hinv.m395⟩
+  · intro f dp hh
+    obtain ⟨h1, h2⟩ := hinv.scope f dp hh
+    refine ⟨by omega, ?_⟩
+    rw [List.take_append_of_le_length (by rw [hinv.len]; exact h1)]
+    exact h2
+  · intro j rest hj
+    cases idx with
+    | nil =>
+      have hd : d = 0 := by have := hinv.len; simpa using this.symm
+      simp only [List.nil_append, List.cons.injEq] at hj
+      obtain ⟨rfl, _⟩ := hj
+      exact ⟨hi, fun hm hoo => hbS hd hm hoo, fun hm hoo => hbC hd hm hoo⟩
+    | cons i0 r0 =>
+      have hd : 1 ≤ d := by have := hinv.len; simp at this; omega
+      simp only [List.cons_append, List.cons.injEq] at hj
+      obtain ⟨rfl, _⟩ := hj
+      obtain ⟨b1, b2, b3⟩ := hinv.bound i0 r0 rfl
+      have := ho hd
+      exact ⟨b1, fun hm hoo => b2 hm (by rw [← this]; exact hoo), fun hm hoo => b3 hm (by rw [← this]; exact hoo)⟩
+
+/-- leaving an iteration: back to the enclosing scope -/
+theorem inv_leave (T : Tables) (env envB' : CEnv) (d : Nat) (idx : List Nat) (s1 s' : DState) (i : Nat)
+    (hpre : Inv T env d idx s1) (hin : Inv T envB' (d + 1) (idx ++ [i]) s')
+    (hsc : ∀ f dp, env.scope.has f dp = true → envB'.scope.has f dp = true)
+    (hmp : envB'.maps = env.maps)
+    (hsm : s'.satmap = s1.satmap) (hcm : s'.cellmap = s1.cellmap) : Inv T env d idx s' := by
+  refine ⟨hpre.len, hin.typed, ?_, fun hm => hin.maps (by rw [hmp]; exact hm), ?_,
+    fun hh => hin.m394 (hsc _ _ hh), fun hh => hin.m395 (hsc _ _ hh)⟩
+  · intro f dp hh
+    obtain ⟨h1, _⟩ := hpre.scope f dp hh
+    obtain ⟨_, h2⟩ := hin.scope f dp (hsc f dp hh)
+    rw [List.take_append_of_le_length (by rw [hpre.len]; exact h1)] at h2
+    exact ⟨h1, h2⟩
+  · intro j rest hj
+    obtain ⟨b1, b2, b3⟩ := hpre.bound j rest hj
+    exact ⟨b1, fun hm ho => by rw [hsm]; exact b2 hm ho, fun hm ho => by rw [hcm]; exact b3 hm ho⟩
+
+
+theorem group_sound (c : Ctx) (env envB' : CEnv) (d : Nat) (idx : List Nat) (s : DState)
+    (body : List Item) (o' : Option Nat) (n : Nat)
+    (hck : ckItems c.T c.id (d + 1) body { env with outer := o' } = some envB')
+    (IH : ∀ idx' s1, Inv c.T { env with outer := o' } (d + 1) idx' s1 →
+      Sound c.T envB' (d + 1) idx' s1 (decItems c body idx' s1))
+    (hinv : Inv c.T env d idx s) (ho : 1 ≤ d → o' = env.outer)
+    (hbS : d = 0 → env.maps = true → o' = some c.T.fidNSat → ∃ sm, s.satmap = some sm ∧ n ≤ sm.length)
+    (hbC : d = 0 → env.maps = true → o' = some c.T.fidNCell → ∃ cm, s.cellmap = some cm ∧ n ≤ cm.length) :
+    Sound c.T env d idx s (repLoop (fun i s => decItems c body (idx ++ [i]) s) n 1 s) := by
+  have hmono := ckItems_mono c.T c.id (d + 1) body _ envB' hck
+  let P : DState → Prop := fun s1 => Inv c.T env d idx s1 ∧ s1.satmap = s.satmap ∧ s1.cellmap = s.cellmap
+  have hstep : ∀ i s1, 1 ≤ i → i ≤ n → P s1 →
+      (∀ e, (fun i s => decItems c body (idx ++ [i]) s) i s1 = .error e → e = .short)
+      ∧ (∀ s', (fun i s => decItems c body (idx ++ [i]) s) i s1 = .ok s' → P s') := by
+    intro i s1 hi hin ⟨hp, hsm, hcm⟩
+    have henter := inv_enter c.T env d idx s1 i o' hp hi ho
+      (fun hd hm hoo => by
+        obtain ⟨sm, e1, e2⟩ := hbS hd hm hoo
+        exact ⟨sm, by rw [hsm]; exact e1, by omega⟩)
+      (fun hd hm hoo => by
+        obtain ⟨cm, e1, e2⟩ := hbC hd hm hoo
+        exact ⟨cm, by rw [hcm]; exact e1, by omega⟩)
+    obtain ⟨h1, h2⟩ := IH (idx ++ [i]) s1 henter
+    refine ⟨h1, fun s' hs' => ?_⟩
+    obtain ⟨hin', hfr⟩ := h2 s' hs'
+    obtain ⟨f1, f2⟩ := hfr (by omega)
+    exact ⟨inv_leave c.T env envB' d idx s1 s' i hp hin' hmono.scope (hmono.deep (by omega)) f1 f2,
+      f1.trans hsm, f2.trans hcm⟩
+  obtain ⟨r1, r2⟩ := repLoop_sound _ P n hstep n 1 s (Nat.le_refl 1) (by omega) ⟨hinv, rfl, rfl⟩
+  exact ⟨r1, fun s' hs' => ⟨(r2 s' hs').1, fun _ => (r2 s' hs').2⟩⟩
+
+theorem sound_frame_trans (T : Tables) (env' : CEnv) (d : Nat) (idx : List Nat) (s s1 : DState)
+    (r : Except DecErr DState) (h : Sound T env' d idx s1 r)
+    (hm : 1 ≤ d → s1.satmap = s.satmap ∧ s1.cellmap = s.cellmap) : Sound T env' d idx s r :=
+  ⟨h.1, fun s' hs' => ⟨(h.2 s' hs').1, fun hd =>
+    ⟨((h.2 s' hs').2 hd).1.trans (hm hd).1, ((h.2 s' hs').2 hd).2.trans (hm hd).2⟩⟩⟩
+
+mutual
+/-- **soundness of the checker, one item** -/
+theorem ckItem_sound (c : Ctx) (hy : Hyg c.T) :
+    ∀ (it : Item) (env env' : CEnv) (d : Nat) (idx : List Nat) (s : DState),
+      ckItem c.T c.id d it env = some env' → Inv c.T env d idx s → Sound c.T env' d idx s (decItem c it idx s)
+  | .field fid, env, env', d, idx, s, hck, hinv => by
+    simp only [ckItem] at hck
+    simp only [decItem]
+    exact ckField_sound c hy env env' d fid idx s hck hinv
+  | .group (.fixed n) body, env, env', d, idx, s, hck, hinv => by
+    simp only [ckItem] at hck
+    obtain ⟨he, envB', hB⟩ := map_const_some _ _ _ hck
+    subst he
+    simp only [decItem, countOf]
+    refine group_sound c env' envB' d idx s body _ n hB
+      (fun idx' s1 h1 => ckItems_sound c hy body _ envB' (d + 1) idx' s1 hB h1) hinv ?_ ?_ ?_
+    · intro hd; rw [if_neg (by omega)]
+    · intro hd _ ho; rw [if_pos hd] at ho; simp at ho
+    · intro hd _ ho; rw [if_pos hd] at ho; simp at ho
+  | .group (.attr fid nest) body, env, env', d, idx, s, hck, hinv => by
+    simp only [ckItem] at hck
+    split at hck
+    · rename_i hcnt
+      obtain ⟨he, envB', hB⟩ := map_const_some _ _ _ hck
+      subst he
+      obtain ⟨n, hn, hS, hC⟩ := countOf_ok c hy env' d idx s fid nest hcnt hinv
+      simp only [decItem, hn]
+      refine group_sound c env' envB' d idx s body _ n hB
+        (fun idx' s1 h1 => ckItems_sound c hy body _ envB' (d + 1) idx' s1 hB h1) hinv ?_ ?_ ?_
+      · intro hd; rw [if_neg (by omega)]
+      · intro hd hm ho
+        rw [if_pos hd] at ho
+        by_cases h0 : nest = 0
+        · rw [if_pos h0] at ho; injection ho with ho
+          obtain ⟨sm, e1, e2⟩ := hS h0 hm ho
+          exact ⟨sm, e1, by omega⟩
+        · rw [if_neg h0] at ho; simp at ho
+      · intro hd hm ho
+        rw [if_pos hd] at ho
+        by_cases h0 : nest = 0
+        · rw [if_pos h0] at ho; injection ho with ho
+          obtain ⟨cm, e1, e2⟩ := hC h0 hm ho
+          exact ⟨cm, e1, by omega⟩
+        · rw [if_neg h0] at ho; simp at ho
+    · simp at hck
+  | .opt fid v body, env, env', d, idx, s, hck, hinv => by
+    simp only [ckItem] at hck
+    split at hck
+    · rename_i hsc
+      obtain ⟨he, envB', hB⟩ := map_const_some _ _ _ hck
+      subst he
+      obtain ⟨_, hsome⟩ := hinv.scope fid 0 hsc
+      simp only [List.take_zero] at hsome
+      simp only [decItem]
+      cases hg : s.attrs.get? (fid, []) with
+      | none => rw [hg] at hsome; simp at hsome
+      | some a =>
+        simp only
+        by_cases hm : optMatches a v = true
+        · rw [if_pos hm]
+          have hb := ckItems_sound c hy body env' envB' d idx s hB hinv
+          have hmono := ckItems_mono c.T c.id d body env' envB' hB
+          exact ⟨hb.1, fun s' hs' => ⟨inv_weaken c.T envB' env' d idx s' (hb.2 s' hs').1 hmono.scope hmono.maps
+            hmono.outer.symm, (hb.2 s' hs').2⟩⟩
+        · rw [if_neg hm]
+          exact sound_ok c.T env' d idx s s hinv (fun _ => ⟨rfl, rfl⟩)
+    · simp at hck
+  | .malformed m, env, env', d, idx, s, hck, hinv => by simp [ckItem] at hck
+/-- **soundness of the checker, item lists** -/
+theorem ckItems_sound (c : Ctx) (hy : Hyg c.T) :
+    ∀ (l : List Item) (env env' : CEnv) (d : Nat) (idx : List Nat) (s : DState),
+      ckItems c.T c.id d l env = some env' → Inv c.T env d idx s → Sound c.T env' d idx s (decItems c l idx s)
+  | [], env, env', d, idx, s, hck, hinv => by
+    simp only [ckItems] at hck
+    injection hck with hck; subst hck
+    simp only [decItems]
+    exact sound_ok c.T env d idx s s hinv (fun _ => ⟨rfl, rfl⟩)
+  | it :: rest, env, env', d, idx, s, hck, hinv => by
+    simp only [ckItems] at hck
+    cases hi : ckItem c.T c.id d it env with
+    | none => simp [hi] at hck
+    | some e1 =>
+      simp only [hi] at hck
+      have h1 := ckItem_sound c hy it env e1 d idx s hi hinv
+      simp only [decItems]
+      cases hd : decItem c it idx s with
+      | error e =>
+        simp only
+        exact ⟨fun e' he => by injection he with he; subst he; exact h1.1 e hd, fun s' hs' => by simp at hs'⟩
+      | ok s1 =>
+        simp only
+        obtain ⟨i1, f1⟩ := h1.2 s1 hd
+        exact sound_frame_trans c.T env' d idx s s1 _ (ckItems_sound c hy rest e1 env' d idx s1 hck i1) f1
+end
+
+
+theorem inv_init (T : Tables) : Inv T ⟨[], false, none⟩ 0 [] DState.init :=
+  ⟨rfl, typed_nil T, fun f dp h => by simp [Scope.has] at h, fun h => by simp at h,
+   fun i rest h => by simp at h, fun h => by simp [Scope.has] at h, fun h => by simp [Scope.has] at h⟩
+
+/-- **Soundness of `ckDef`.**  For tables passing the hygiene check and a definition the checker
+    accepts for identity `id`: whatever the payload and the label option, decoding can fail in one
+    way only — a field extends past the end of the payload. -/
+theorem ck_sound (T : Tables) (hy : Hyg T) (id : Ident) (label : Nat) (p : Payload) (d : List Item)
+    (h : ckDef T id d = true) (e : DecErr)
+    (he : decItems ⟨T, p, id, label⟩ d [] DState.init = .error e) : e = .short := by
+  unfold ckDef at h
+  cases hc : ckItems T id 0 d ⟨[], false, none⟩ with
+  | none => rw [hc] at h; simp at h
+  | some env' =>
+    exact (ckItems_sound ⟨T, p, id, label⟩ hy d _ env' 0 [] DState.init hc (inv_init T)).1 e he
 
 end Rtcm
